@@ -7,6 +7,7 @@ from .. import engine as en
 from .. import genengine as ge
 
 ID = 'C15'
+ANCHOR_FILES = ['generator/instance_options_parser.py', 'generator/generator.py']
 LEVEL = 'exploration'
 EVAL_COUNTER = 'generator_calls'
 RULE = ('for each random legal vector (ha/sm/hr/spa; optional parameters sometimes present; boundary values pmin=pmax, pmax=n2, '
